@@ -443,8 +443,14 @@ var ghostLevelOf func(ll *LevelList, t *Table) int
 //@     invariant forall(0, idx_, func(i int) bool { return setOK(ll.levels[i].tables) && ll.levels[i].Num == old(ll.levels)[i].Num &&
 //@           forall(func(x *Table) bool { return has(ll.levels[i].tables.m, x) == (has(old(ll.levels)[i].tables.m, x) && !inList(tables, x)) }) })
 
+// (The new layout gets a COPY of the level array - slices.Clone - before anything is changed: in
+// the engine's value semantics of slices a shared backing array is invisible, so the copy itself
+// is demanded. Checkpoints keep the layout they were given; a later flush or compaction must not
+// rewrite it in place.)
 //@ func LevelList.NewWithChangeSet
-//@   property C18
+//@   property C18 C08 C09
+//@   atcall Clone: same(arg0, ll.levels)
+//@   ensures called(Clone)
 //@   requires cs != nil && forall(0, len(ll.levels), func(i int) bool { return setOK(ll.levels[i].tables) })
 //@   requires forall(0, len(cs.additions), func(a int) bool { return cs.additions[a].Table != nil && -len(ll.levels) <= cs.additions[a].LevelNum && cs.additions[a].LevelNum < len(ll.levels) })
 //@   requires forall(0, len(cs.removals), func(j int) bool { return cs.removals[j] != nil })
